@@ -738,6 +738,9 @@ def call_ext(ev, dotted, args, kwargs, node):
         return mk_app("sqrt", [as_v(ev, args[0])])
     if dotted in ("math.floor", "math.ceil"):
         return mk_app(dotted.split(".")[1], [as_v(ev, args[0])])
+    if dotted == "functools.partial" and args:
+        from .evalr import PartialV
+        return PartialV(args[0], args[1:], kwargs)
     if dotted in ("functools.wraps",):
         return _IDENTITY_DECORATOR
     if dotted in ("dataclasses.dataclass", "dataclasses.field"):
